@@ -226,9 +226,10 @@ class HistProp:
         if kslice_res:
             cov['in_kernel_slice'] = dict(histories_evaluated_by_vm_compute=kslice_res['cases'],
                                           disagreeing=len(kslice_res['disagreeing']), seconds=round(kslice_res['seconds'], 1),
-                                          rule='histories of this run made of open / close / publish / delete / index removal and reads only, cut at '
-                                               'their last full scan: abs (fst (hrun fnv64a init_state ops)) evaluated by coqc (vm_compute) must be '
-                                               'the implementation\'s scan and NextOffset')
+                                          rule='histories of this run - their part made of open / close / publish / delete / index removal / DeleteMulti / '
+                                               'TrimByOffset, Count, Age / CompactUpdates, Deletes / Migrate / Recover and reads - cut at their last full scan (or '
+                                               'NextOffset call): abs of the fold of XHistory.xh_step fnv64a from init_state, evaluated by coqc (vm_compute), '
+                                               'must be the implementation\'s scan and NextOffset')
         cov.update(extra_cov)
         kv.write_evidence(pid, tier, seed, cov, self.assumptions, time.time() - t0, violations)
         for l in verdict_lines:
